@@ -23,7 +23,8 @@ PROPS = {
     "C02": _p(["generate", "context"], COMMON_TRUST + " CLAIMED AT OPERATION GRANULARITY FOR RUNS WHOSE LOCK WRITE SUCCEEDS: C02.step carries the escape "
               "`|| lock_write_failed()`; the write-ahead obligation (lock before rename) is not checked (fails by design of the tool, DESIGN.md B3).",
               "step contract on generate_code for every exit (success, failed file, stop request): with the cache in use the lock file holds the counter "
-              "value, which is >= every ID written; the lock writer's contract is proved in unit context"),
+              "value, which is >= every ID written; the lock writer's contract is proved in unit context; spec/history.rs proves by induction over histories "
+              "(developer edits, check runs, edit runs satisfying the step contract) that the lock dominates every ID ever written, hence no ID is written twice"),
     "C03": _p(["generate", "find"], COMMON_TRUST,
               "Insert::map: the file is its original or an is_token_insertion of it (splice over exactly the missing entries, lemma erase==original); "
               "frame on all other paths; insertion offsets proved in range and ordered for `find`'s result"),
